@@ -81,6 +81,18 @@ CHECKS = {
          "and concurrent runs on the real TransactionPool record every call with the index snapshot; TxPoolTrace.tla requires every post-state to satisfy the invariants and to be a permitted successor; every call runs under a watchdog (liveness).",
          "Stub verifier with scripted answers; small transaction universes; concurrent mode judged at quiescence only.",
          "TLC model checking of TxPool.tla + TLA+ trace validation (monitor) of the real pool with watchdog", "DESIGN.md section 4 C14"),
+ "C04": ("model_checking",
+         "Node.tla: TLC checks FinalMonotone, FinalizedIrreversible and FinalSane as action/state properties over valid blocks, LIP-0014 tie breaks, deletes (incl. at or below the finalized height) and restarts (exhaustive with a VIEW for chains <= 5-6 blocks, simulation beyond); "
+         "the scripts are replayed on the real Executer comparing the stored finalized height, the finalize events and the refusal to remove or replace finalized tips after every step. Sync scenarios (fast sync, block sync, corrupting and truncating peers, failed sync) on real "
+         "networked nodes are validated by SyncTrace.tla: the finalized height never decreases and the block ids served for finalized heights never change.",
+         "Toy application; 3 validators; scenarios sampled (seeded); invalid tie-break blocks are not generated.",
+         "TLC model checking of Node.tla + replay of TLC scripts on the real Executer + TLA+ trace monitor of real sync scenarios", "DESIGN.md section 4 C04"),
+ "C19": ("model_checking",
+         "Sync.tla: BestPeers as a set of acceptable answers - TLC prints the table for all sequences of <= 4 peer tips (22,620 rows) and the real peer selection is evaluated on every row; HighestCommon / BlocksFrom specify the RPC handler answers, checked by SyncTrace.tla on "
+         "calls made over loopback libp2p to a real 113-block node (cap 103 exercised); Outcomes specifies where a node may end after being offered a peer's tip; offer scenarios (own fork vs honest real peer, corrupting or truncating fake peer, near = fast sync, far = block sync, common block below finality) "
+         "run through the real process()/sync path and every outcome is validated.",
+         "3 validators; toy application; scenarios sampled (seeded); malformed sync requests belong to C09/C18.",
+         "TLC-generated selection table + TLA+ trace monitor of real handler calls and real sync scenarios between in-process nodes", "DESIGN.md section 4 C19"),
 }
 NA_REASON = "check not built yet in this round (planned, see DESIGN.md section 4); not claimed until its TLA+ specification and binding exist"
 
